@@ -64,20 +64,21 @@ Theorem C14_failed_call_no_effect :
 Proof. exact bstep_fail. Qed.
 Print Assumptions C14_failed_call_no_effect.
 
-(** Over ANY history of burns (by any module), mints and sends, from any state,
-    per denomination: community-pool growth = 10^18 x (sum of the successfully
-    redirected amounts); supply changes only by ordinary burns and mints;
-    the distribution account grows by the redirected sum plus the net of the
-    plain sends to / from it. *)
+(** Over ANY history of burns (by any module), mints, sends and FeePool updates
+    of the distribution keeper itself ([DistrBook]), from any state, per
+    denomination: community-pool growth = 10^18 x (sum of the successfully
+    redirected amounts) + what the distribution keeper booked; supply changes
+    only by ordinary burns and mints; the distribution account grows by the
+    redirected sum plus the net of the plain sends to / from it. *)
 Theorem C14_history_accounting :
   forall ops s d,
-    poolof (brun ops s) d = poolof s d + hsum eff_red ops s d * 10 ^ 18 /\
+    poolof (brun ops s) d = poolof s d + hsum eff_red ops s d * 10 ^ 18 + hsum eff_book ops s d /\
     supplyof (brun ops s) d = supplyof s d + hsum eff_mint ops s d - hsum eff_burn ops s d /\
     balof (brun ops s) DISTR d = balof s DISTR d + hsum eff_red ops s d + hsum eff_distr_send ops s d.
 Proof. exact history_accounting. Qed.
 Print Assumptions C14_history_accounting.
 
-(** ... so with no other traffic on the distribution account: sum of redirected
+(** ... so with no other traffic on the distribution account and its pool: sum of redirected
     amounts = pool growth = distribution-account growth. *)
 Theorem C14_history_redirected_sum :
   forall ops s d, Forall no_distr_send ops ->
@@ -121,3 +122,122 @@ Theorem C14_nonvacuous_history :
   supply_inv s /\ pool_backed s /\ poolof s 0%N = 180 * 10 ^ 18 /\ balof s DISTR 0%N = 180 /\ supplyof s 0%N = 1361.
 Proof. exact ex_invariants. Qed.
 Print Assumptions C14_nonvacuous_history.
+
+(** ---- sequences of events at one block height and across heights ----
+
+    [crun evs s]: the events [evs] executed in this order from state [s] (one
+    denomination): [EvBurn m x] is BurnCoins(m, x) (redirected for gov / bonded /
+    not-bonded: coins to the distribution account, pool read from the store,
+    + x, written back; ordinary otherwise), [EvFund] MsgFundCommunityPool,
+    [EvSpend] a community-pool spend, [EvRemainder p r] a distribution hook or
+    withdrawal paying out p coins and booking the remainder r into the pool,
+    [EvAllocate f c] the AllocateTokens of a BeginBlock, [EvMint], [EvMove] plain
+    sends, [EvNextBlock] the next height.  [csum f evs s] sums f over the events
+    that went through.  Every statement is over ALL sequences (any interleaving,
+    any number of heights) from ANY state. *)
+
+(** the supply is changed only by ordinary burns (and mints) ... *)
+Theorem C14_seq_supply_only_plain_burns :
+  forall evs s, c_supply (crun evs s) = c_supply s + csum ce_mint evs s - csum ce_plain evs s.
+Proof. exact crun_supply. Qed.
+Print Assumptions C14_seq_supply_only_plain_burns.
+
+(** ... so a sequence of redirected burns, donations, spends, hook bookings,
+    allocations and sends leaves it unchanged *)
+Theorem C14_seq_supply_unchanged :
+  forall evs, Forall no_supply_event evs -> forall s, c_supply (crun evs s) = c_supply s.
+Proof. exact crun_supply_unchanged. Qed.
+Print Assumptions C14_seq_supply_unchanged.
+
+(** community pool after the sequence = initial + sum of redirected burns + sum
+    of donations - sum of spends (x 10^18) + sum of the remainders and community
+    shares the distribution module booked, whatever the interleaving *)
+Theorem C14_seq_pool_is_sum_of_bookings :
+  forall evs s,
+    c_pool (crun evs s) = c_pool s + (csum ce_red evs s + csum ce_fund evs s - csum ce_spend evs s) * 10 ^ 18
+                          + csum ce_rem evs s.
+Proof. exact crun_pool. Qed.
+Print Assumptions C14_seq_pool_is_sum_of_bookings.
+
+(** the distribution account receives every redirected coin *)
+Theorem C14_seq_distr_balance :
+  forall evs s,
+    c_distr (crun evs s) = c_distr s + csum ce_red evs s + csum ce_fund evs s - csum ce_spend evs s
+                           + csum ce_distr_other evs s.
+Proof. exact crun_distr. Qed.
+Print Assumptions C14_seq_distr_balance.
+
+(** when every event of two interleavings of the same events goes through, the
+    community pool ends up the same: no booking is lost by reordering *)
+Theorem C14_seq_pool_any_interleaving :
+  forall evs evs' s, Permutation.Permutation evs evs' -> all_ok evs s -> all_ok evs' s ->
+    c_pool (crun evs' s) = c_pool (crun evs s).
+Proof. exact crun_pool_any_interleaving. Qed.
+Print Assumptions C14_seq_pool_any_interleaving.
+
+Theorem C14_seq_pool_all_ok :
+  forall evs s, all_ok evs s -> c_pool (crun evs s) = c_pool s + pool_bookings evs.
+Proof. exact crun_pool_all_ok. Qed.
+Print Assumptions C14_seq_pool_all_ok.
+
+(** the distribution module account covers community pool + outstanding rewards
+    after every sequence (nothing but the distribution keeper debits it) *)
+Theorem C14_seq_distr_covers_pool :
+  forall evs, Forall no_distr_move_out evs -> forall s, covered s ->
+    covered (crun evs s) /\ c_pool (crun evs s) <= c_distr (crun evs s) * 10 ^ 18.
+Proof. exact crun_covers_pool. Qed.
+Print Assumptions C14_seq_distr_covers_pool.
+
+Theorem C14_seq_supply_is_sum_of_balances :
+  forall evs s, csupply_inv s -> csupply_inv (crun evs s).
+Proof. exact crun_supply_inv. Qed.
+Print Assumptions C14_seq_supply_is_sum_of_balances.
+
+(** non-vacuity: slash 100, donation 777, deposit burn 400 at one height; and one
+    slash whose Unbond hook books a remainder between two burns *)
+Theorem C14_seq_nonvacuous :
+  covered ex_cst /\ csupply_inv ex_cst /\ all_ok ex_one_block ex_cst /\ all_ok ex_one_slash ex_cst /\
+  crun ex_one_block ex_cst = mkcst 100000 (1282 * 10 ^ 18) 1289 (6 * 10 ^ 18 + 250) 4500 94211 /\
+  crun ex_one_slash ex_cst = mkcst 100000 (105 * 10 ^ 18 + 250) 110 (4 * 10 ^ 18) 4900 94990.
+Proof. exact ex_seq_faithful. Qed.
+Print Assumptions C14_seq_nonvacuous.
+
+(** A BurnCoins that memoises the decoded FeePool per block height ([krun]; not
+    what /repo does) does NOT have the property: a donation between two
+    redirected burns of one height is lost from the pool (the coins stay in the
+    distribution account, unaccounted), and so is a remainder booked by the
+    hook that fires between two burns of ONE slash; across heights, or with
+    nothing between the burns, it behaves like the faithful one. *)
+Theorem C14_seq_memo_per_height_refuted :
+  exists evs k, k_memo k = None /\ covered (k_st k) /\ all_ok evs (k_st k) /\
+    Forall (fun e => e <> EvNextBlock) evs /\
+    c_pool (k_st (krun evs k)) <> c_pool (crun evs (k_st k)).
+Proof. exact memo_refuted. Qed.
+Print Assumptions C14_seq_memo_per_height_refuted.
+
+Theorem C14_seq_memo_loses_interleaved_fund :
+  let s := crun ex_one_block ex_cst in
+  let s' := k_st (krun ex_one_block ex_kst) in
+  c_pool s = c_pool ex_cst + (100 + 777 + 400) * 10 ^ 18 /\
+  c_pool s' = c_pool ex_cst + (100 + 400) * 10 ^ 18 /\
+  c_supply s' = c_supply s /\ c_distr s' = c_distr s /\ c_out s' = c_out s /\
+  c_distr s' * 10 ^ 18 - (c_pool s' + c_out s') = (c_distr ex_cst * 10 ^ 18 - (c_pool ex_cst + c_out ex_cst)) + 777 * 10 ^ 18.
+Proof. exact memo_loses_interleaved_fund. Qed.
+Print Assumptions C14_seq_memo_loses_interleaved_fund.
+
+Theorem C14_seq_memo_loses_hook_remainder :
+  let s := crun ex_one_slash ex_cst in
+  let s' := k_st (krun ex_one_slash ex_kst) in
+  c_pool s = c_pool ex_cst + 100 * 10 ^ 18 + 250 /\
+  c_pool s' = c_pool ex_cst + 100 * 10 ^ 18 /\
+  c_supply s' = c_supply s /\ c_distr s' = c_distr s /\ c_out s' = c_out s.
+Proof. exact memo_loses_hook_remainder. Qed.
+Print Assumptions C14_seq_memo_loses_hook_remainder.
+
+Theorem C14_seq_memo_agrees_across_heights :
+  k_st (krun [redirected_burn 100; EvFund 777; EvNextBlock; EvBurn GOV 400] ex_kst)
+    = crun [redirected_burn 100; EvFund 777; EvNextBlock; EvBurn GOV 400] ex_cst /\
+  k_st (krun [redirected_burn 100; EvBurn GOV 400; EvFund 777] ex_kst)
+    = crun [redirected_burn 100; EvBurn GOV 400; EvFund 777] ex_cst.
+Proof. exact memo_agrees_across_heights. Qed.
+Print Assumptions C14_seq_memo_agrees_across_heights.
